@@ -2,6 +2,7 @@
 import warnings as W
 
 from .. import build as B
+from .. import events as EV
 from .. import gen
 from ..build import E
 from ..canon import Abs
@@ -57,10 +58,24 @@ def history(s, hidx):
         ro_txt = ro_txt.replace('</roSlug>', '</roSlug><mosExternalMetadata><mosSchema>http://x</mosSchema>'
                                 '<mosPayload><mosromgrmeta><roDelete><roID>RO</roID></roDelete></mosromgrmeta>'
                                 '</mosPayload></mosExternalMetadata>', 1)
+    fragile = rng.random() < 0.3
+    if fragile:
+        # content the read accessors stumble over (no slug, a story without an ID, a duration that is not
+        # a number): completing the running order does not depend on any of it
+        import re
+        c = rng.random()
+        if c < 0.35:
+            ro_txt = re.sub(r'<roSlug>[^<]*</roSlug>|<roSlug\s*/>', '', ro_txt, count=1)
+        elif c < 0.7:
+            ro_txt = ro_txt.replace('</roCreate>', '<story><storySlug>no id</storySlug><item><itemID>q</itemID></item></story></roCreate>', 1)
+        else:
+            ro_txt = ro_txt.replace('</roCreate>', '<story><storyID>odd-timing</storyID><mosExternalMetadata><mosSchema>http://t</mosSchema>'
+                                    '<mosPayload><StoryDuration>soon</StoryDuration><TextTime/></mosPayload></mosExternalMetadata></story></roCreate>', 1)
+        s.hist['fragile_histories'] += 1
     ro = s.load(ro_txt)
     cur = ro_txt
     w = K.kind_weights(1, 1, 0.5, 0.0)
-    for k in range(rng.randint(0, 12)):
+    for k in range(rng.randint(0, 12) if not fragile else rng.randint(0, 3)):
         state = Abs(cur)
         kind = K.weighted_kinds(rng, w)
         msg = gen.rand_message(rng, state, kind, 100 + k, ids, pool=pool)
@@ -145,6 +160,25 @@ def collection_history(s, cidx):
                                    {'n_post': n_post, 'non_strict_warnings': n_ns}, wit, status='non-strict')
         if mc is not None and merr is None and not mc.completed:
             s.custom_violation('collection-not-completed-after-roDelete', {}, wit)
+        if mc is not None and mc.completed:
+            # completion is terminal for the collection too: merging it again adds every message to a
+            # completed running order - refused (strict) or reported one by one (non-strict), nothing changes
+            before = str(mc)
+            again_strict = rng.random() < 0.5
+            err2, wn2 = K.merge_collection(s, mc, again_strict)
+            EV.drain()
+            s.evaluations += 1
+            n2 = sum(1 for x in wn2 if x == 'MosMergeNonStrictWarning')
+            s.note_sig(('collection-merged-again', strict, again_strict, type(err2).__name__ if err2 else 'ok', min(n2, 5)))
+            det2 = {'first_strict': strict, 'second_strict': again_strict, 'exc': type(err2).__name__ if err2 else None,
+                    'non_strict_warnings': n2, 'readers': len(mc.mos_readers)}
+            wit2 = dict(wit, again=again_strict)
+            if str(mc) != before or not mc.completed:
+                s.custom_violation('second-merge-changed-a-completed-collection', det2, wit2, status='again')
+            if again_strict and (err2 is None or 'MosCompletedMergeError' not in [c.__name__ for c in type(err2).__mro__]):
+                s.custom_violation('second-strict-merge-of-completed-collection-not-refused', det2, wit2, status='again')
+            if not again_strict and (err2 is not None or n2 != len(mc.mos_readers)):
+                s.custom_violation('second-non-strict-merge-did-not-report-every-message', det2, wit2, status='again')
 
 
 def cli_history(s, i, tmpdir):
